@@ -36,6 +36,21 @@ Definition eAssign (o : option result) : list Z :=
            | Some r => [1] ++ tag 2 ++ eResult r
            end.
 
+(* a history: specs, then the steps; a step = nodes, then metrics entries that also
+   carry the ResourceVersion token the harness gives the NodeMetrics (ignored by the model:
+   utilisation comes from pods and moves without it) *)
+Definition dMetricsRv : dec metrics :=
+  dList (let* n := dPos in let* v := dOpt dZ in let* rv := dZ in ret (n, v)).
+Definition dHistory : dec (list sspec * list (list node * metrics)) :=
+  let* ss := dList dSspec in
+  let* steps := dList (dPair (dList dNode) dMetricsRv) in ret (ss, steps).
+
+Definition eHistory (o : option (list result)) : list Z :=
+  tag 1 ++ match o with
+           | None => [0]
+           | Some outs => [1] ++ tag 2 ++ eList (fun r => tag 3 ++ eResult r) outs
+           end.
+
 Definition entry (sel : Z) (toks : list Z) : list Z :=
   match sel with
   (* CalculateShardAssignments through the real configuration path *)
@@ -55,6 +70,10 @@ Definition entry (sel : Z) (toks : list Z) : list Z :=
   | 4 => match run_dec dInput toks with
          | Some (ns, m, ss) => eAssign (sync_assignments ns m ss)
          | None => bad_input end
+  (* one manager, a sequence of reconciles with changing nodes / metrics *)
+  | 5 => match run_dec dHistory toks with
+         | Some (ss, steps) => eHistory (history ss steps)
+         | None => bad_input end
   (* laws evaluated on the implementation's own results: must answer [1] *)
   | 101 => match run_dec dResult toks with
            | Some r => eBool (law_disjoint r) | None => bad_input end
@@ -70,6 +89,9 @@ Definition entry (sel : Z) (toks : list Z) : list Z :=
            | Some ((ns, m, ss), r) => eBool (law_count ns m ss r) | None => bad_input end
   (* the same cluster listed by two differently filled node listers: identical assignments *)
   | 107 => match run_dec (dPair dResult dResult) toks with
+           | Some (a, b) => eBool (law_deterministic a b) | None => bad_input end
+  (* a reconcile on a reused manager against a fresh manager on the same input *)
+  | 109 => match run_dec (dPair dResult dResult) toks with
            | Some (a, b) => eBool (law_deterministic a b) | None => bad_input end
   | 108 => match run_dec (dPair dInput dResult) toks with
            | Some ((ns, m, ss), r) => eBool (law_order_tol ns m ss r) | None => bad_input end
